@@ -25,6 +25,9 @@ pub struct FlowRec {
     /// (from the append responses actually stepped in; independent of Progress.matched).
     pub acked: u64,
     pub snapshots_since_event: u32,
+    /// A snapshot was shipped to this follower and neither a status report nor an
+    /// acknowledgement covering it has arrived yet.
+    pub snap_outstanding: Option<u64>,
 }
 
 impl Default for FlowRec {
@@ -37,6 +40,7 @@ impl Default for FlowRec {
             last_matched: 0,
             acked: 0,
             snapshots_since_event: 0,
+            snap_outstanding: None,
         }
     }
 }
@@ -234,8 +238,32 @@ pub fn after_call(
         rec.last_state = pr.state;
         rec.last_pending_snapshot = pr.pending_snapshot;
         rec.last_matched = pr.matched;
+        // what ends "a snapshot is outstanding": its status report, an acknowledgement that
+        // covers it, a membership change or a new leadership - not an unreachable report,
+        // a heartbeat response or a rejection
+        let ends_snapshot = event_all
+            || is_new
+            || matches!(op, Op::ReportSnapshot(x, _) if *x == u)
+            || matches!(op, Op::Step(x) if x.from == u
+                && x.get_msg_type() == MessageType::MsgAppendResponse
+                && !x.reject
+                && rec.snap_outstanding.is_some_and(|si| x.index >= si));
+        let outstanding_before = rec.snap_outstanding;
+        if ends_snapshot {
+            rec.snap_outstanding = None;
+        }
+        let still_outstanding = rec.snap_outstanding;
+        if ns > 0 {
+            rec.snap_outstanding = Some(pr.pending_snapshot);
+        }
         let mut bad: Option<(&'static str, String)> = None;
-        if last_state == ProgressState::Snapshot && !is_event && (na > 0 || ns > 0) {
+        if let (Some(si), true) = (still_outstanding, na > 0 || ns > 0) {
+            let _ = outstanding_before;
+            bad = Some((
+                "send-while-snapshot-outstanding",
+                format!("{} appends and {} snapshots sent to {} while snapshot {} is outstanding (no status report, no acknowledgement covering it)", na, ns, u, si),
+            ));
+        } else if last_state == ProgressState::Snapshot && !is_event && (na > 0 || ns > 0) {
             bad = Some((
                 "send-while-snapshot-outstanding",
                 format!("{} appends and {} snapshots sent to {} while a snapshot is outstanding", na, ns, u),
